@@ -90,6 +90,8 @@ class Sym:
             return self.const(e.value, repr(e.value))
         if isinstance(e, ast.Name):
             if e.id in env:
+                if env[e.id][0] == 'unknown':
+                    raise Untranslatable('%s was bound by a statement outside the arithmetic fragment' % e.id)
                 return env[e.id]
             if hasattr(self.mod, e.id):
                 return self.const(getattr(self.mod, e.id), e.id)
@@ -270,12 +272,28 @@ class Sym:
                     return ('if', c, then, els)
                 raise Untranslatable(type(s).__name__ + ': ' + ast.unparse(s)[:80])
             except Untranslatable:
-                if partial and all(w in env for w in want):
-                    return ('cut', {w: env[w] for w in want})
-                raise
-        if partial and all(w in env for w in want):
-            return ('cut', {w: env[w] for w in want})
+                if not partial:
+                    raise
+                # partial mode: a simple statement outside the arithmetic fragment (protobuf / numpy code) is stepped
+                # over; the names it binds become unknown (a later use of one of them ends the execution)
+                if isinstance(s, (ast.Assign, ast.AugAssign, ast.AnnAssign, ast.Expr, ast.Delete)):
+                    tg = s.targets if isinstance(s, (ast.Assign, ast.Delete)) else [getattr(s, 'target', None)]
+                    for t in tg:
+                        for nme in ast.walk(t) if t is not None else []:
+                            if isinstance(nme, ast.Name) and isinstance(nme.ctx, (ast.Store, ast.Del)):
+                                env[nme.id] = ('unknown', nme.id)
+                    continue
+                return self._cut(env, want)
+        if partial:
+            return self._cut(env, want)
         raise Untranslatable('control falls off the end')
+
+    @staticmethod
+    def _cut(env, want):
+        missing = [w for w in want if env.get(w, ('unknown',))[0] == 'unknown']
+        if missing:
+            raise Untranslatable('local %s is not computed by the arithmetic prefix of the function' % ', '.join(missing))
+        return ('cut', {w: env[w] for w in want})
 
 
 def emit_tree(tree, indent, select=None):
